@@ -9,6 +9,25 @@ ROOT = pathlib.Path(__file__).resolve().parent.parent
 
 # id -> (technique, level text, level_note, design_ref)
 CHECKS = {
+    "C10": (
+        "round-trip + golden monitor: generated extensions vs their descriptors and their reloaded copies; byte equality of the bundled std files with the specification; helper-denotation checks against the specification's JSON",
+        "1000 (quick) / 40000 (thorough) generated extensions (explicit/from-params TypeDefs with params of all kinds, mono/poly/binary OpDefs "
+        "with misc JSON, typed values, semver with pre-release/build parts) are serialized, compared field by field with the descriptor, "
+        "reloaded and compared again; every OpDef must report its holder as owner and carry the holder in its runtime requirements. Every file "
+        "under specification/std_extensions must be byte-identical to the bundled copy, load and round-trip; each typed helper must denote a "
+        "definition present in those files with fitting arguments (and, for ops, the instantiated signature).",
+        "Trusted: vf/gen/extensions.py, wire arg_fits/subst. runtime_reqs lists compared as sets. lower_funcs excluded (as in the property).",
+        "DESIGN.md §3 C10",
+    ),
+    "C09": (
+        "round-trip monitor + header-bit oracle + exhaustive decoder sweep",
+        "Generated packages (0-4 module programs, 0-3 extensions, non-ASCII names) are encoded under JSON x zstd in {None,0,1,3,9,19,22} and "
+        "decoded again through bytes and (uncompressed) string; module/extension lists must re-serialize to the same documents in order; the "
+        "first ten bytes are checked against the documented layout and the payload is decoded independently. EnvelopeHeader.from_bytes and "
+        "read_envelope are swept exhaustively over all 65536 (format, flags) byte pairs, all truncations and all 2040 magic corruptions.",
+        "MODULE formats cannot be encoded here (native module absent) and are observed only on rejection paths; flag bits 1-5 unconstrained.",
+        "DESIGN.md §3 C09",
+    ),
     "C05": (
         "codec differential: encode -> decode(JSON text and dict routes) -> encode fixed point, derived-fact and attribute-tree equality against opaque-mode rebuilds, encoding vs independently written wire forms, sugar == general; foreign-writer documents for the load/re-save clause",
         "Generated types/params/args (nested sums, function types, opaque and generated extension types, row variables), values (all sugar "
